@@ -280,17 +280,21 @@ Fixpoint slex_f (fuel : nat) (ls : slex) (src : list ch) (lineno : Z) : res slex
            let tb := sl_timebase ls in
            let push (x : res (Token.tok * list ch * Z)) : res slex_out :=
              do y <- x; let '(t, s', ln') := y in loop n' ls s' ln' harmony (acc ++ [SCore t]) in
+           (* readers that may answer with no token (reservation forms the core model reads: `l.Random(..)` ...) *)
+           let pusho (x : res (option Token.tok * list ch * Z)) : res slex_out :=
+             do y <- x; let '(ot, s', ln') := y in
+             loop n' ls s' ln' harmony (match ot with Some t => acc ++ [SCore t] | None => acc end) in
            if (c =? 32) || (c =? 9) || (c =? 13) || (c =? 124) || (c =? 59) then loop n' ls r ln harmony acc
            else if c =? 10 then loop n' ls r (ln + 1) harmony (acc ++ [SCore (TLineNo (ln + 1))])
            else if (c =? 99) || (c =? 100) || (c =? 101) || (c =? 102) || (c =? 103) || (c =? 97) || (c =? 98) then
              push (Ok (read_note c r ln))
            else if c =? 110 then push (read_note_n tb r ln)
            else if c =? 114 then push (Ok (read_rest r ln))
-           else if c =? 108 then push (read_length r ln)
-           else if c =? 111 then push (read_octave tb r ln)
+           else if c =? 108 then pusho (read_length tb r ln)
+           else if c =? 111 then pusho (read_octave tb r ln)
            else if ((c =? 113) || (c =? 118)) && negb (prefixb (zs "Add") r || ((c =? 113) && prefixb (zs "2Add") r)) then
-             (if c =? 113 then push (read_qlen tb r ln) else push (read_velocity tb r ln))
-           else if c =? 116 then push (read_timing tb r ln)
+             (if c =? 113 then pusho (read_qlen tb r ln) else pusho (read_velocity tb r ln))
+           else if c =? 116 then pusho (read_timing tb r ln)
            else if (c =? 112) || (c =? 121) then Unsupported U_SCMD
            else if is_upper c || (c =? 95) || (c =? 35) then
              let s := c :: r in
@@ -357,12 +361,12 @@ Fixpoint slex_f (fuel : nat) (ls : slex) (src : list ch) (lineno : Z) : res slex
                        let '(s7, ln7) := skip_space (skipn 4 s6) ln6 in
                        if negb (eq_char s7 123) then Unsupported U_SYNTAX else
                        let '(else_s, s8, ln8) := LexCore.get_token_nest s7 ln7 123 125 in
-                       do el <- slex_f f ls1 else_s ln6;       (* ... the ELSE block on the line of the word ELSE *)
+                       do el <- slex_f f ls1 else_s ln7;       (* ... the ELSE block on the line of its '{' too *)
                        let '(else_tok, ls2) := el in
                        loop n' ls2 s8 ln8 harmony (acc ++ [SIf cond then_tok else_tok lineno])
                      else loop n' ls1 s6 ln6 harmony (acc ++ [SIf cond then_tok [] lineno])
                    else if list_eqb ttype (zs "While") then
-                     (* read_while: condition and body are lexed with the line of the word WHILE *)
+                     (* read_while: the condition is lexed with the line of the word WHILE, the body with the line of its '{' *)
                      let '(s2, ln2) := skip_space s1 ln in
                      if negb (eq_char s2 40) then Unsupported U_SYNTAX else
                      let '(cond_s, s3, ln3) := LexCore.get_token_nest s2 ln2 40 41 in
@@ -370,7 +374,7 @@ Fixpoint slex_f (fuel : nat) (ls : slex) (src : list ch) (lineno : Z) : res slex
                      do cond <- cond_of cl;
                      let '(s4, ln4) := skip_space s3 ln3 in
                      let '(body_s, s5, ln5) := LexCore.get_token_nest s4 ln4 123 125 in
-                     do bd <- slex_f f ls body_s lineno;
+                     do bd <- slex_f f ls body_s ln4;
                      let '(body_tok, ls1) := bd in
                      loop n' ls1 s5 ln5 harmony (acc ++ [SWhile cond body_tok lineno])
                    else if list_eqb ttype (zs "For") then
@@ -394,7 +398,7 @@ Fixpoint slex_f (fuel : nat) (ls : slex) (src : list ch) (lineno : Z) : res slex
                      do cond <- cond_of cl;
                      do ic <- slex_f f ls1 inc_s lineno;
                      let '(inc_tok, ls2) := ic in
-                     do bd <- slex_f f ls2 body_s lineno;
+                     do bd <- slex_f f ls2 body_s ln6;     (* the body starts on the line of its '{' *)
                      let '(body_tok, ls3) := bd in
                      loop n' ls3 s7 ln7 harmony (acc ++ [SFor init_tok cond inc_tok body_tok lineno])
                    else if list_eqb ttype (zs "DefUserFunction") then
